@@ -59,7 +59,7 @@ class C03(Prop):
                "aioswitcher.api:SwitcherType2Api._control_breeze_swing_device", "aioswitcher.api:SwitcherType2Api._get_breeze_state",
                "aioswitcher.device.tools:current_timestamp_to_hexadecimal"]
     min_evaluations = {"quick": 10_000, "thorough": 150_000}
-    budget_s = {"quick": 60, "thorough": 900}
+    budget_s = {"quick": 300, "thorough": 900}
 
     def selftest(self):
         crc_and_frames()
@@ -127,6 +127,15 @@ class C03(Prop):
                 if n_clients == 1 and r.random() < 0.01:
                     n_steps = 260      # a long-lived connection: counters, buffers and tables inside the client get time to fill up
                 c["steps"] = self._random_steps(r, c["type"], n_steps)
+            if n_clients == 2 and r.random() < 0.5:
+                # the longest exchange there is (login, state, command, separate swing command) on one instance while the other one
+                # logs in and out: four frames are four chances for something foreign to slip in
+                c0 = case["clients"][r.randrange(2)]
+                if c0["type"] != 2:
+                    c0["type"] = 2
+                    c0["steps"] = self._random_steps(r, 2, len(c0["steps"]))
+                for _ in range(2):
+                    c0["steps"].insert(r.randrange(len(c0["steps"]) + 1), step_of("breeze_main_swing"))
         ids = set()
         for c in case["clients"]:
             while True:
@@ -259,6 +268,7 @@ class C03(Prop):
                     await self._interleave(r, clients, run_client, choice_log, acc)
             finally:
                 self.dev.gate = None
+                tcpwork.SHARED_CONTEXT = None
                 for cl in clients:
                     await cl.close()
         acc.count(f"clock_mode_{clock_mode}")
@@ -283,12 +293,14 @@ class C03(Prop):
                 await self._slow_reply(acc)
 
         self.dev.gate = gate
-        if r.random() < 0.5:
+        if r.random() < 0.5 and asyncio.get_running_loop().get_task_factory() is None:
+            # (not with eager tasks: an eager task cannot enter the context its creator is still inside)
             # an application whose task factory runs everything in ONE contextvars.Context
             import contextvars
 
             shared = contextvars.copy_context()
             loop = asyncio.get_running_loop()
+            tcpwork.SHARED_CONTEXT = shared
             tasks = [loop.create_task(run_client(i), context=shared) for i in range(len(clients))]
             acc.count("interleaved_histories_in_one_shared_context")
         else:
